@@ -716,6 +716,68 @@ func runC09(c *Ctx) {
 		c.Ob("C09-R6", "flush-mark sites found", "", nCache >= 2 && nDel >= 1 && nCode >= 3, fmt.Sprintf("%d cache writes, %d mark removals, %d dirtyCode stores", nCache, nDel, nCode))
 	})
 	c.Min("C09-R6", 8)
+
+	c.Rule("C09-R7", "a journal entry records the live value: each prev* field is read from the state it will restore, at journaling time", func() {
+		// frozen table (entry type . field -> accepted renderings), one line per field, confirmed by reading
+		want := map[string]string{
+			"balanceChange.prev":        `^new\(Int\)\.Set\(stateObject#0\.data\.Balance\)$`,
+			"nonceChange.prev":          `^stateObject#0\.data\.Nonce$`,
+			"codeChange.prevhash":       `^stateObject#0\.CodeHash\(\)$`,
+			"codeChange.prevcode":       `^stateObject#0\.Code\(stateObject#0\.db\.db\)$`,
+			"storageChange.prevalue":    `^stateObject#0\.GetState\(Database#0, Hash#0\)$`,
+			"suicideChange.prev":        `^StateDB#0\.getStateObject\(Address#0\)\.suicided$`,
+			"suicideChange.prevbalance": `^new\(Int\)\.Set\(StateDB#0\.getStateObject\(Address#0\)\.Balance\(\)\)$`,
+			"refundChange.prev":         `^StateDB#0\.refund$`,
+			"touchChange.prev":          `^stateObject#0\.touched$`,
+			"touchChange.prevDirty":     `^\(?(stateObject#0\.onDirty == nil|nil == stateObject#0\.onDirty)\)?$`,
+			"resetObjectChange.prev":    `^StateDB#0\.getStateObject\(Address#0\)$`,
+		}
+		seen := map[string]bool{}
+		for _, fn := range fns {
+			if isUndo[fn] {
+				continue
+			}
+			for _, b := range fn.Blocks {
+				for _, ins := range b.Instrs {
+					st, ok := ins.(*ssa.Store)
+					if !ok {
+						continue
+					}
+					fa, ok := st.Addr.(*ssa.FieldAddr)
+					if !ok || !strings.HasPrefix(fieldName(fa), "prev") {
+						continue
+					}
+					ty := typeShort(fa.X.Type())
+					if undoOf[ty] == nil {
+						continue
+					}
+					key := ty + "." + fieldName(fa)
+					t := c.termOf(fn, st.Val)
+					re, known := want[key]
+					seen[key] = true
+					c.Ob("C09-R7", shortFn(fn)+": "+key+" is the live value at journaling time", c.Position(st.Pos()), known && mustRe(re).MatchString(t), "recorded: "+t)
+				}
+			}
+		}
+		c.Ob("C09-R7", "journal entries with previous values found", "", len(seen) >= 9, fmt.Sprintf("%v", keysOfBool(seen)))
+	})
+	c.Min("C09-R7", 9)
+
+	c.Rule("C09-R8", "an account leaves the trie at a boundary only if it self-destructed or was touched (dirty) and is empty under EIP-158 deletion", func() {
+		// an empty account that was merely read must stay: deleting it makes the root depend on which accounts happened
+		// to be loaded into the cache (history), not on content
+		sui := `^[^!].*\.suicided$`
+		for _, n := range []string{"Finalise", "Commit"} {
+			fn := c.Fn("core/state:(*StateDB)." + n)
+			c.MustBefore("C09-R8", fn, `^StateDB\.deleteStateObject$`, 1, []LitReq{
+				{Name: "deleted without self-destruct only under deleteEmptyObjects", Unless: sui, Re: `^bool#0$`},
+				{Name: "deleted without self-destruct only if empty", Unless: sui, Re: `^[^!].*\.empty\(\)$`},
+				{Name: "deleted without self-destruct only if dirty in this period", Unless: sui,
+					Re: `^(StateDB#0\.stateObjectsDirty\[.*\]#1|StateDB#0\.stateObjects\[next\(range\(StateDB#0\.stateObjectsDirty\)\)#1\]\.empty\(\))$`},
+			})
+		}
+	})
+	c.Min("C09-R8", 6)
 }
 
 func keysOfFn(m map[string]*ssa.Function) []string {
